@@ -1726,7 +1726,7 @@ def request_cases(ctx, n):
                           + ['create_child_sa'] * 3 + ['delete_child_sa'])
         replies = []
         rkinds = []
-        for _ in range(3):
+        for _ in range({'create_child_sa': 3, 'delete_child_sa': 2}.get(kind, 1)):
             rk, rb = gen_reply(rng, seq, pid)
             if kind in ('create_child_sa',) and rng.randrange(3):
                 rk, rb = 'ack', ack_reply(seq, pid)
@@ -1771,6 +1771,223 @@ def request_cases(ctx, n):
     return cases
 
 
+# =============================================================================================
+# tie 2c: kernel-encoded events and replies through the real parser against the model
+
+class KEnc:
+    """Encoder of UAPI structures that knows nothing but gcc's offsetof/sizeof numbers (leaf offsets are sums
+    of offsetof along the member path) - independent of the ctypes mirrors and of the Coq layout function."""
+
+    def __init__(self, ctx):
+        g = gcc_layouts(ctx, ctx.uapi['structs'])
+        self.leaves = {}
+        self.size = {}
+        for name, spelling, ty in ctx.uapi['structs']:
+            size, align, members, leaves = gcc_expected(name, ty, g)
+            self.size[name] = size
+            self.leaves[name] = {l[0]: l[1:] for l in leaves}
+
+    def put(self, buf, base, struct_name, path, value):
+        off, n, w, be = self.leaves[struct_name][path]
+        if isinstance(value, (bytes, bytearray)):
+            assert len(value) <= max(n, 1) * w or n == 0, (path, len(value))
+            buf[base + off: base + off + len(value)] = value
+        else:
+            buf[base + off: base + off + w] = (value % (1 << (8 * w))).to_bytes(w, 'big' if be else 'little')
+
+    def get(self, data, base, struct_name, path, raw=False):
+        off, n, w, be = self.leaves[struct_name][path]
+        if raw or n != 1:
+            return bytes(data[base + off: base + off + max(n, 1) * w])
+        return int.from_bytes(data[base + off: base + off + w], 'big' if be else 'little')
+
+    def build(self, struct_name, values, extra=0):
+        buf = bytearray(self.size[struct_name] + extra)
+        for path, v in values.items():
+            self.put(buf, 0, struct_name, path, v)
+        return bytes(buf)
+
+
+def nla(code, payload, pad=True):
+    b = struct.pack('<HH', 4 + len(payload), code) + payload
+    return b + bytes(-len(b) % 4) if pad else b
+
+
+def addr16(a):
+    return a.packed + bytes(16 - len(a.packed))
+
+
+def gen_selector_values(rng, prefix, fam=None):
+    v = fam or rng.choice((4, 6))
+    return {prefix + 'family': {4: 2, 6: 10}[v] if rng.randrange(25) else rng.choice((0, 2, 10, 7)),
+            prefix + 'daddr.a6': addr16(gen_ip(rng, v)), prefix + 'saddr.a6': addr16(gen_ip(rng, v)),
+            prefix + 'dport': gen_port(rng), prefix + 'sport': gen_port(rng),
+            prefix + 'dport_mask': rng.choice((0, 0xFFFF)), prefix + 'sport_mask': rng.choice((0, 0xFFFF)),
+            prefix + 'prefixlen_d': rng.randrange(129), prefix + 'prefixlen_s': rng.randrange(129),
+            prefix + 'proto': rng.choice((0, 6, 17, 58, rng.randrange(256))),
+            prefix + 'ifindex': rng.choice((0, 0, 3)), prefix + 'user': rng.choice((0, 1000))}
+
+
+def gen_tmpl(rng, ke, v=None):
+    v = v or rng.choice((4, 6))
+    return ke.build('xfrm_user_tmpl', {
+        'id.daddr.a6': addr16(gen_ip(rng, v)), 'id.spi': rng.getrandbits(32), 'id.proto': rng.choice((50, 51)),
+        'family': {4: 2, 6: 10}[v] if rng.randrange(25) else rng.choice((0, 2, 10)),
+        'saddr.a6': addr16(gen_ip(rng, v)), 'reqid': rng.getrandbits(32), 'mode': rng.choice((0, 1)),
+        'share': 0, 'optional': rng.choice((0, 1)), 'aalgos': 0xFFFFFFFF, 'ealgos': 0xFFFFFFFF, 'calgos': 0xFFFFFFFF})
+
+
+def gen_event(rng, ke):
+    """-> (kind, bytes) : a datagram as the kernel would multicast it (or a damaged variant)."""
+    seq = rng.getrandbits(32)
+    kind = rng.choice(['acquire'] * 6 + ['expire'] * 4 + ['other'] * 2)
+    if kind == 'acquire':
+        v = rng.choice((4, 6))
+        vals = {'id.daddr.a6': addr16(gen_ip(rng, v)), 'id.spi': 0, 'id.proto': rng.choice((50, 51)),
+                'saddr.a6': addr16(gen_ip(rng, v)), 'aalgos': rng.getrandbits(32), 'ealgos': rng.getrandbits(32),
+                'calgos': rng.getrandbits(32), 'seq': rng.getrandbits(32),
+                'policy.index': rng.choice((9, 17, rng.getrandbits(32), (rng.getrandbits(29) << 3) | 1)),
+                'policy.dir': 1, 'policy.priority': rng.getrandbits(32), 'policy.action': 0,
+                'policy.lft.soft_byte_limit': (1 << 64) - 1, 'policy.lft.hard_packet_limit': rng.getrandbits(64),
+                'policy.curlft.add_time': rng.getrandbits(40)}
+        vals.update(gen_selector_values(rng, 'sel.'))
+        vals.update(gen_selector_values(rng, 'policy.sel.'))
+        body = ke.build('xfrm_user_acquire', vals)
+        shape = rng.choice(['tmpl', 'tmpl', 'tmpl+', 'tmpl2', 'aligned-first', 'unaligned-first', 'none', 'zeros', 'dup'])
+        tm = nla(5, gen_tmpl(rng, ke, v))
+        upt = nla(16, bytes([0, 0, 0, 0, 0, 0]))          # XFRMA_POLICY_TYPE: nla_len 10, padded to 12
+        mark = nla(21, struct.pack('<II', rng.getrandbits(32), rng.getrandbits(32)))
+        attrs = {'tmpl': tm, 'tmpl+': tm + upt + mark, 'tmpl2': nla(5, gen_tmpl(rng, ke, v) + gen_tmpl(rng, ke)),
+                 'aligned-first': mark + tm, 'unaligned-first': upt + tm, 'none': b'', 'zeros': bytes(rng.randrange(1, 24)),
+                 'dup': tm + nla(5, gen_tmpl(rng, ke))}[shape]
+        msg = nlmsg(0x17, 0, seq, 0, body + attrs)
+        kind = 'acquire:' + shape
+    elif kind == 'expire':
+        v = rng.choice((4, 6))
+        vals = {'state.id.daddr.a6': addr16(gen_ip(rng, v)), 'state.id.spi': rng.getrandbits(32),
+                'state.id.proto': rng.choice((50, 51)), 'state.saddr.a6': addr16(gen_ip(rng, v)),
+                'state.family': {4: 2, 6: 10}[v], 'state.mode': rng.choice((0, 1)), 'state.reqid': rng.getrandbits(32),
+                'state.seq': rng.getrandbits(32), 'state.lft.soft_add_expires_seconds': rng.getrandbits(20),
+                'state.curlft.bytes': rng.getrandbits(50), 'state.stats.replay': rng.getrandbits(32),
+                'state.replay_window': rng.randrange(256), 'state.flags': rng.randrange(256),
+                'hard': rng.choice((0, 1, 1, 0, 255))}
+        vals.update(gen_selector_values(rng, 'state.sel.'))
+        body = ke.build('xfrm_user_expire', vals)
+        msg = nlmsg(0x18, 0, seq, 0, body + rng.choice((b'', b'', nla(21, bytes(8)))))
+    else:
+        t = rng.choice((0x13, 0x02, 0x03, 0x10, 0x19, 0x99))
+        body = bytes(rng.getrandbits(8) for _ in range(rng.choice((0, 4, 20, 36, 168, 200))))
+        msg = nlmsg(t, rng.choice((0, 2)), seq, 0, body)
+        kind = 'other:%#x' % t
+    r = rng.randrange(20)
+    if r == 0:
+        msg = msg[:rng.randrange(len(msg))]
+        kind += ':truncated'
+    elif r == 1:
+        msg = msg[:0] + struct.pack('<I', rng.choice((0, 16, len(msg) - 4, len(msg) + 40))) + msg[4:]
+        kind += ':badlen'
+    return kind, msg
+
+
+def real_parse(data):
+    import xfrm
+    header, payload, attributes = xfrm.Xfrm.parse_message(data)
+    derived = None
+    if payload is not None and header.type == xfrm.XFRM_MSG_ACQUIRE:
+        try:
+            family = attributes[xfrm.XFRMA_TMPL].family
+            sf = payload.sel.family
+            derived = [family, ipv(payload.id.daddr.to_ipaddr(family)), ipv(payload.saddr.to_ipaddr(family)), sf,
+                       ipv(payload.sel.saddr.to_ipaddr(sf)), ipv(payload.sel.daddr.to_ipaddr(sf)),
+                       payload.sel.sport, payload.sel.dport, payload.sel.proto, payload.policy.index,
+                       payload.policy.index >> 3]
+        except KeyError:
+            derived = 'KeyError'
+    elif payload is not None and header.type == xfrm.XFRM_MSG_EXPIRE:
+        derived = [bytes(payload.state.id.spi), payload.hard]
+    return [bytes(header), None if payload is None else [header.type, bytes(payload)],
+            [[k, bytes(v)] for k, v in attributes.items()], derived]
+
+
+def event_cases(ctx, n):
+    import logging
+    ke = KEnc(ctx)
+    cases = []
+    logging.disable(logging.CRITICAL)
+    try:
+        for i in range(n):
+            kind, msg = gen_event(ctx.rng, ke)
+            cases.append((msg, real_parse(msg)))
+            ctx.case(['event', msg.hex()], nontrivial=True, sample=(i < 1))
+            ctx.count('event:' + kind.split(':truncated')[0].split(':badlen')[0])
+    finally:
+        logging.disable(logging.NOTSET)
+    return cases
+
+
+def gen_reply_stream(rng):
+    seq, pid = rng.getrandbits(32), rng.getrandbits(22)
+    k = rng.randrange(8)
+    if k == 0:
+        return 'ack', ack_reply(seq, pid)
+    if k == 1:
+        return 'error', ack_reply(seq, pid, -rng.randrange(1, 134))
+    if k == 2:
+        return 'positive-error', ack_reply(seq, pid, rng.randrange(1, 1 << 31))
+    if k == 3:
+        n = rng.randrange(0, 6)
+        parts = b''.join(nlmsg(rng.choice((0x10, 0x13, 0x17, 0x18, 0x99)), 2, seq, pid,
+                               bytes(rng.getrandbits(8) for _ in range(rng.randrange(0, 60)))) for _ in range(n))
+        return 'multi', parts + nlmsg(3, 2, seq, pid, struct.pack('<i', 0)) + rng.choice((b'', b'junk'))
+    if k == 4:
+        return 'ack+ack', ack_reply(seq, pid) + ack_reply(seq, pid, rng.choice((0, -22)))
+    if k == 5:
+        n = rng.randrange(1, 4)
+        return 'no-done', b''.join(nlmsg(0x10, 2, seq, pid, bytes(rng.randrange(0, 30))) for _ in range(n))
+    if k == 6:
+        m = ack_reply(seq, pid, rng.choice((0, -3)))
+        return 'short', m[:rng.randrange(4, len(m))]
+    return 'empty', b''
+
+
+def reply_terminates(data):
+    """The real loop spins forever when a header announces length 0 (excluded; the model says Diverged)."""
+    while len(data) > 0:
+        hdr = data[:16] + bytes(16 - len(data[:16]))
+        length, mtype = struct.unpack_from('<IH', hdr)
+        if mtype == 3:
+            return True
+        if mtype == 2:
+            body = data[16:20] + bytes(4 - len(data[16:20]))
+            if struct.unpack('<i', body)[0] != 0:
+                return True
+        if length == 0:
+            return False
+        data = data[length:]
+    return True
+
+
+def reply_cases(ctx, n):
+    import xfrm
+    cases = []
+    for i in range(n):
+        kind, data = gen_reply_stream(ctx.rng)
+        if not reply_terminates(data):
+            cases.append((data, 'diverged'))
+            ctx.count('reply:zero-length(model only)')
+            continue
+        rec = Recorder([data])
+        with Patched(rec, 1, 1):
+            try:
+                out = len(xfrm.Xfrm.send_recv(xfrm.XFRM_MSG_FLUSHSA, 5, xfrm.XfrmUserSaFlush(proto=0)))
+            except Exception as ex:
+                out = type(ex).__name__
+        cases.append((data, out))
+        ctx.case(['reply', data.hex()], nontrivial=True)
+        ctx.count('reply:' + kind)
+    return cases
+
+
 def correspond(ctx):
     fails = []
     cases = layout_cases(ctx)
@@ -1781,13 +1998,47 @@ def correspond(ctx):
                              f'Coq layout {model_out} vs gcc/ctypes {cases[gi][1]}',
                              {'kind': 'layout', 'case': cases[gi][0], 'expected': cases[gi][1]}))
     cases = request_cases(ctx, 2000 if ctx.quick() else 30000)
-    bad = core.run_cases(ctx, CLUSTER, 'From Xfrm Require Import XfrmRun.', 'run_call', cases, shard=150,
+    # byte-for-byte on a sample, length + two 61-bit polynomial fingerprints of every sent message on all
+    nfull = 120 if ctx.quick() else 1500
+    bad = core.run_cases(ctx, CLUSTER, 'From Xfrm Require Import XfrmRun.', 'run_call', cases[:nfull], shard=40,
                          name='requests')
+    fpcases = [(i, [[fingerprint(b) for b in e[0]], e[1]]) for i, e in cases]
+    badfp = core.run_cases(ctx, CLUSTER, 'From Xfrm Require Import XfrmRun.', 'run_call_fp', fpcases, shard=250,
+                           name='requests_fp')
+    bad = bad + [(gi, out) for gi, out in badfp if gi not in dict(bad)]
     for gi, model_out in bad[:5]:
         fails.append(Failure('correspondence', 'request:' + cases[gi][0][0][0],
                              f'model {model_out[-600:]} vs implementation {cases[gi][1]}',
                              {'kind': 'request', 'input': sx_json(cases[gi][0]), 'impl': sx_json(cases[gi][1])}))
+    cases = event_cases(ctx, 500 if ctx.quick() else 8000)
+    bad = core.run_cases(ctx, CLUSTER, 'From Xfrm Require Import XfrmRun.', 'run_parse', cases, shard=70,
+                         name='events')
+    for gi, model_out in bad[:5]:
+        fails.append(Failure('correspondence', 'event:parse_message',
+                             f'model {model_out[-600:]} vs implementation {cases[gi][1]}',
+                             {'kind': 'event', 'data': cases[gi][0].hex(), 'impl': sx_json(cases[gi][1])}))
+    cases = reply_cases(ctx, 300 if ctx.quick() else 5000)
+    bad = core.run_cases(ctx, CLUSTER, 'From Xfrm Require Import XfrmRun.', 'run_reply', cases, shard=150,
+                         name='replies')
+    for gi, model_out in bad[:5]:
+        fails.append(Failure('correspondence', 'reply:send_recv',
+                             f'model {model_out[-300:]} vs implementation {cases[gi][1]}',
+                             {'kind': 'reply', 'data': cases[gi][0].hex(), 'impl': cases[gi][1]}))
     return fails
+
+
+FP_MOD = (1 << 61) - 1
+
+
+def fingerprint(b):
+    out = [len(b)]
+    for base in (257, 65599):
+        acc = 0
+        for x in b:
+            y = acc * base + x + 1
+            acc = (y & FP_MOD) + (y >> 61)
+        out.append(acc)
+    return out
 
 
 def sx_json(o):
@@ -1798,11 +2049,340 @@ def sx_json(o):
     return o
 
 
+# =============================================================================================
+# oracle: the property's own statement on the real code (no model): what the kernel would read
+
+AF = {4: 2, 6: 10}
+INF = (1 << 64) - 1
+
+
+def well_formed_sa_args(rng):
+    """Arguments inside the property's quantifier: one family per selector pair and per endpoint pair, 4-byte
+    SPI, supported algorithm/key-size pairs, lifetime -1 or >= 0."""
+    v, outer = rng.choice((4, 6)), rng.choice((4, 6))
+    esp = rng.randrange(3) > 0
+    ename, esizes = ALGS_ENC[0]
+    aname, asizes = rng.choice(ALGS_AUTH)
+    return dict(src_selector=gen_net(rng, v), dst_selector=gen_net(rng, v), src_port=gen_port(rng),
+                dst_port=gen_port(rng), spi=bytes(rng.getrandbits(8) for _ in range(4)),
+                ip_proto=rng.choice([0, 1, 6, 17, 58, 255, rng.randrange(256)]), ipsec_proto=50 if esp else 51,
+                mode=rng.choice([0, 1]), src=gen_ip(rng, outer), dst=gen_ip(rng, outer),
+                enc_algorithm=ename if esp else None,
+                sk_e=bytes(rng.getrandbits(8) for _ in range(rng.choice(esizes))) if esp else b'',
+                auth_algorithm=aname, sk_a=bytes(rng.getrandbits(8) for _ in range(rng.choice(asizes))),
+                lifetime=rng.choice([-1, 0, 1, 5, rng.randrange(1, 1 << 20), rng.randrange(1, 1 << 40)]))
+
+
+def k_attrs(data):
+    """nla_parse: aligned TLVs, every byte consumed; -> [(type, nla_len, payload)] or None."""
+    out = []
+    while data:
+        if len(data) < 4:
+            return None
+        ln, ty = struct.unpack_from('<HH', data)
+        if ln < 4 or ln > len(data):
+            return None
+        out.append((ty, ln, data[4:ln]))
+        data = data[(ln + 3) & ~3:]
+    return out
+
+
+def k_addr(ke, msg, base, sname, path, family):
+    raw = ke.get(msg, base, sname, path, raw=True)
+    return raw[:4] if family == 2 else raw
+
+
+def expect(diffs, what, got, want):
+    if got != want:
+        diffs.append(f'{what}: kernel reads {got!r}, intended {want!r}')
+
+
+def check_header(ke, msg, mtype, seq, pid, diffs):
+    expect(diffs, 'nlmsg_len', ke.get(msg, 0, 'nlmsghdr', 'nlmsg_len'), len(msg))
+    expect(diffs, 'nlmsg_type', ke.get(msg, 0, 'nlmsghdr', 'nlmsg_type'), mtype)
+    expect(diffs, 'nlmsg_flags', ke.get(msg, 0, 'nlmsghdr', 'nlmsg_flags'), 1 | 4)
+    expect(diffs, 'nlmsg_seq', ke.get(msg, 0, 'nlmsghdr', 'nlmsg_seq'), seq)
+    expect(diffs, 'nlmsg_pid', ke.get(msg, 0, 'nlmsghdr', 'nlmsg_pid'), pid)
+
+
+def check_selector(ke, msg, sname, pre, a, diffs):
+    fam = AF[a['src_selector'].version]
+    expect(diffs, pre + 'family', ke.get(msg, 16, sname, pre + 'family'), fam)
+    for side, net in (('s', a['src_selector']), ('d', a['dst_selector'])):
+        raw = ke.get(msg, 16, sname, f'{pre}{side}addr.a6', raw=True)
+        expect(diffs, f'{pre}{side}addr', raw, net[0].packed + bytes(16 - len(net[0].packed)))
+        expect(diffs, f'{pre}prefixlen_{side}', ke.get(msg, 16, sname, f'{pre}prefixlen_{side}'), net.prefixlen)
+    for side, port in (('s', a['src_port']), ('d', a['dst_port'])):
+        expect(diffs, f'{pre}{side}port', ke.get(msg, 16, sname, f'{pre}{side}port'), port)
+        expect(diffs, f'{pre}{side}port_mask', ke.get(msg, 16, sname, f'{pre}{side}port_mask'),
+               0 if port == 0 else 0xFFFF)
+    expect(diffs, pre + 'proto', ke.get(msg, 16, sname, pre + 'proto'), a['ip_proto'])
+    expect(diffs, pre + 'ifindex', ke.get(msg, 16, sname, pre + 'ifindex'), 0)
+    expect(diffs, pre + 'user', ke.get(msg, 16, sname, pre + 'user'), 0)
+
+
+def check_lft(ke, msg, sname, pre, soft, hard, diffs):
+    want = {'soft_byte_limit': INF, 'hard_byte_limit': INF, 'soft_packet_limit': INF, 'hard_packet_limit': INF,
+            'soft_add_expires_seconds': soft, 'hard_add_expires_seconds': hard, 'soft_use_expires_seconds': 0,
+            'hard_use_expires_seconds': 0}
+    for k, v in want.items():
+        expect(diffs, pre + k, ke.get(msg, 16, sname, pre + k), v)
+
+
+def accounted(ke, sname, msg, base, paths, diffs):
+    """Every byte of the structure image outside the listed leaves must be zero."""
+    img = bytearray(msg[base: base + ke.size[sname]])
+    for p in paths:
+        off, n, w, be = ke.leaves[sname][p]
+        img[off: off + max(n, 1) * w] = bytes(max(n, 1) * w)
+    if any(img):
+        diffs.append(f'{sname}: non-zero bytes in fields the request was not meant to set')
+
+
+def check_algo(ke, payload, ln, name, key, what, diffs):
+    size = ke.size['xfrm_algo']
+    expect(diffs, what + ' nla_len', ln, 4 + len(payload))
+    expect(diffs, what + ' nla_len alignment', ln % 4, 0)
+    if len(payload) < size:
+        diffs.append(what + ': attribute shorter than struct xfrm_algo')
+        return
+    raw = ke.get(payload, 0, 'xfrm_algo', 'alg_name', raw=True)
+    expect(diffs, what + ' alg_name', raw.split(b'\0')[0], name)
+    expect(diffs, what + ' alg_name NUL padding', raw[len(name):], bytes(64 - len(name)))
+    bits = ke.get(payload, 0, 'xfrm_algo', 'alg_key_len')
+    expect(diffs, what + ' alg_key_len', bits, 8 * len(key))
+    koff = ke.leaves['xfrm_algo']['alg_key'][0]
+    if len(payload) < koff + (bits + 7) // 8:
+        diffs.append(what + ': key does not fit in the attribute')
+    expect(diffs, what + ' key', payload[koff: koff + (bits + 7) // 8], key)
+    expect(diffs, what + ' bytes after the key', bytes(payload[koff + len(key):]), bytes(len(payload) - koff - len(key)))
+
+
+def check_newsa(ke, msg, a, seq, pid):
+    d = []
+    s = 'xfrm_usersa_info'
+    check_header(ke, msg, 0x10, seq, pid, d)
+    if len(msg) < 16 + ke.size[s]:
+        return d + ['message shorter than nlmsghdr + xfrm_usersa_info']
+    check_selector(ke, msg, s, 'sel.', a, d)
+    fam = AF[a['src'].version]
+    expect(d, 'family', ke.get(msg, 16, s, 'family'), fam)
+    expect(d, 'id.daddr', ke.get(msg, 16, s, 'id.daddr.a6', raw=True), a['dst'].packed + bytes(16 - len(a['dst'].packed)))
+    expect(d, 'saddr', ke.get(msg, 16, s, 'saddr.a6', raw=True), a['src'].packed + bytes(16 - len(a['src'].packed)))
+    expect(d, 'id.spi', ke.get(msg, 16, s, 'id.spi'), int.from_bytes(a['spi'], 'big'))
+    expect(d, 'id.proto', ke.get(msg, 16, s, 'id.proto'), a['ipsec_proto'])
+    expect(d, 'mode', ke.get(msg, 16, s, 'mode'), a['mode'])
+    lt = a['lifetime']
+    check_lft(ke, msg, s, 'lft.', 0 if lt < 0 else lt, 0 if lt < 0 else lt + 10, d)
+    accounted(ke, s, msg, 16, [p for p in ke.leaves[s] if p.startswith(('sel.', 'lft.', 'id.')) or
+                               p in ('family', 'saddr.a6', 'mode')], d)
+    attrs = k_attrs(msg[(16 + ke.size[s] + 3) & ~3:])
+    if attrs is None:
+        return d + ['attributes are not a well-formed aligned TLV sequence']
+    want = ([(2, a['enc_algorithm'], a['sk_e'])] if a['ipsec_proto'] == 50 else []) + [(1, a['auth_algorithm'], a['sk_a'])]
+    expect(d, 'attribute types', sorted(t for t, _, _ in attrs), sorted(t for t, _, _ in want))
+    for ty, name, key in want:
+        for t, ln, payload in attrs:
+            if t == ty:
+                check_algo(ke, payload, ln, name, key, {1: 'XFRMA_ALG_AUTH', 2: 'XFRMA_ALG_CRYPT'}[ty], d)
+    return d
+
+
+def check_newpolicy(ke, msg, a, seq, pid):
+    d = []
+    s, t = 'xfrm_userpolicy_info', 'xfrm_user_tmpl'
+    check_header(ke, msg, 0x13, seq, pid, d)
+    if len(msg) < 16 + ke.size[s]:
+        return d + ['message shorter than nlmsghdr + xfrm_userpolicy_info']
+    check_selector(ke, msg, s, 'sel.', a, d)
+    check_lft(ke, msg, s, 'lft.', 0, 0, d)
+    expect(d, 'dir', ke.get(msg, 16, s, 'dir'), a['direction'])
+    expect(d, 'index', ke.get(msg, 16, s, 'index'), a['index'])
+    expect(d, 'action', ke.get(msg, 16, s, 'action'), 0)
+    accounted(ke, s, msg, 16, [p for p in ke.leaves[s] if p.startswith(('sel.', 'lft.')) or p in ('dir', 'index')], d)
+    attrs = k_attrs(msg[(16 + ke.size[s] + 3) & ~3:])
+    if attrs is None or [x[0] for x in attrs] != [5]:
+        return d + ['expected exactly one XFRMA_TMPL attribute']
+    _, ln, p = attrs[0]
+    expect(d, 'XFRMA_TMPL nla_len', ln, 4 + ke.size[t])
+    if len(p) != ke.size[t]:
+        return d
+    expect(d, 'tmpl.id.daddr', ke.get(p, 0, t, 'id.daddr.a6', raw=True), a['dst'].packed + bytes(16 - len(a['dst'].packed)))
+    expect(d, 'tmpl.saddr', ke.get(p, 0, t, 'saddr.a6', raw=True), a['src'].packed + bytes(16 - len(a['src'].packed)))
+    expect(d, 'tmpl.family', ke.get(p, 0, t, 'family'), AF[a['src'].version])
+    expect(d, 'tmpl.id.proto', ke.get(p, 0, t, 'id.proto'), a['ipsec_proto'])
+    expect(d, 'tmpl.mode', ke.get(p, 0, t, 'mode'), a['mode'])
+    for k in ('aalgos', 'ealgos', 'calgos'):
+        expect(d, 'tmpl.' + k, ke.get(p, 0, t, k), 0xFFFFFFFF)
+    accounted(ke, t, p, 0, ['id.daddr.a6', 'saddr.a6', 'family', 'id.proto', 'mode', 'aalgos', 'ealgos', 'calgos'], d)
+    return d
+
+
+def check_delsa(ke, msg, daddr, proto, spi, seq, pid):
+    d = []
+    s = 'xfrm_usersa_id'
+    check_header(ke, msg, 0x11, seq, pid, d)
+    expect(d, 'length', len(msg), 16 + ke.size[s])
+    if len(msg) < 16 + ke.size[s]:
+        return d
+    expect(d, 'daddr', ke.get(msg, 16, s, 'daddr.a6', raw=True), daddr.packed + bytes(16 - len(daddr.packed)))
+    expect(d, 'spi', ke.get(msg, 16, s, 'spi'), int.from_bytes(spi, 'big'))
+    expect(d, 'family', ke.get(msg, 16, s, 'family'), AF[daddr.version])
+    expect(d, 'proto', ke.get(msg, 16, s, 'proto'), proto)
+    accounted(ke, s, msg, 16, ['daddr.a6', 'spi', 'family', 'proto'], d)
+    return d
+
+
+def check_flush(ke, msg, mtype, seq, pid):
+    d = []
+    check_header(ke, msg, mtype, seq, pid, d)
+    expect(d, 'length', len(msg), 16 + ke.size['xfrm_usersa_flush'])
+    if len(msg) > 16:
+        expect(d, 'proto', ke.get(msg, 16, 'xfrm_usersa_flush', 'proto'), 0)
+    return d
+
+
+def oracle_request(ctx, ke, kind, a, seq, pid, reply_kind):
+    """Run one real builder against the recorder; -> list of difference strings."""
+    import xfrm
+    reply = {'ack': ack_reply(seq, pid), 'error': ack_reply(seq, pid, -22),
+             'multi': nlmsg(0x10, 2, seq, pid, bytes(8)) + nlmsg(3, 2, seq, pid, bytes(4))}[reply_kind]
+    rec = Recorder([reply])
+    if kind == 'create_sa':
+        real = run_real(lambda: xfrm.Xfrm.create_sa(*[a[k] for k in SA_ORDER]), rec, seq, pid)
+    elif kind == 'create_policy':
+        real = run_real(lambda: xfrm.Xfrm.create_policy(*[a[k] for k in POL_ORDER]), rec, seq, pid)
+    elif kind == 'delete_sa':
+        real = run_real(lambda: xfrm.Xfrm.delete_sa(a['daddr'], a['proto'], a['spi']), rec, seq, pid)
+    else:
+        real = run_real(getattr(xfrm.Xfrm, kind), rec, seq, pid)
+    sent, out = real
+    d = []
+    if len(sent) != 1:
+        return [f'{len(sent)} messages were sent instead of one ({out})']
+    want = 'NetlinkError' if reply_kind == 'error' and kind != 'delete_sa' else 'done'
+    expect(d, f'outcome after a kernel {reply_kind} reply', out, want)
+    msg = sent[0]
+    if kind == 'create_sa':
+        d += check_newsa(ke, msg, a, seq, pid)
+    elif kind == 'create_policy':
+        d += check_newpolicy(ke, msg, a, seq, pid)
+    elif kind == 'delete_sa':
+        d += check_delsa(ke, msg, a['daddr'], a['proto'], a['spi'], seq, pid)
+    else:
+        d += check_flush(ke, msg, {'flush_policies': 0x1D, 'flush_sas': 0x1C}[kind], seq, pid)
+    return d
+
+
+def args_json(a):
+    return {k: sx_json(sxval(v)) for k, v in a.items()}
+
+
+def args_unjson(j):
+    def un(v):
+        if isinstance(v, dict) and 'hex' in v:
+            return bytes.fromhex(v['hex'])
+        if isinstance(v, list) and len(v) == 2 and isinstance(v[0], list):      # net
+            return ipaddress.ip_network((un(v[0][1]), v[1]))
+        if isinstance(v, list) and len(v) == 2 and v[0] in (4, 6):              # ip
+            return ipaddress.ip_address(un(v[1]))
+        return v
+    return {k: un(v) for k, v in j.items()}
+
+
+def oracle_event(ke, msg):
+    """Kernel-encoded event: the fields the daemon uses, read with gcc offsets vs the real parser's objects."""
+    import xfrm
+    d = []
+    header, payload, attributes = xfrm.Xfrm.parse_message(msg)
+    expect(d, 'header.type', header.type, ke.get(msg, 0, 'nlmsghdr', 'nlmsg_type'))
+    expect(d, 'header.length', header.length, ke.get(msg, 0, 'nlmsghdr', 'nlmsg_len'))
+    if header.type == 0x17:
+        s = 'xfrm_user_acquire'
+        tm = [p for t, ln, p in (k_attrs(msg[16 + ke.size[s]:]) or []) if t == 5]
+        if not tm:
+            return d
+        family = ke.get(tm[-1], 0, 'xfrm_user_tmpl', 'family')
+        if xfrm.XFRMA_TMPL not in attributes:
+            return d + ['XFRMA_TMPL attribute not found by the parser']
+        expect(d, 'tmpl.family', attributes[xfrm.XFRMA_TMPL].family, family)
+        cut = (lambda raw, fam: raw[:4] if fam == 2 else raw)
+        sf = ke.get(msg, 16, s, 'sel.family')
+        expect(d, 'id.daddr', payload.id.daddr.to_ipaddr(family).packed, cut(ke.get(msg, 16, s, 'id.daddr.a6', raw=True), family))
+        expect(d, 'saddr', payload.saddr.to_ipaddr(family).packed, cut(ke.get(msg, 16, s, 'saddr.a6', raw=True), family))
+        expect(d, 'sel.family', payload.sel.family, sf)
+        expect(d, 'sel.saddr', payload.sel.saddr.to_ipaddr(sf).packed, cut(ke.get(msg, 16, s, 'sel.saddr.a6', raw=True), sf))
+        expect(d, 'sel.daddr', payload.sel.daddr.to_ipaddr(sf).packed, cut(ke.get(msg, 16, s, 'sel.daddr.a6', raw=True), sf))
+        for f in ('sport', 'dport', 'proto', 'prefixlen_s', 'prefixlen_d'):
+            expect(d, 'sel.' + f, getattr(payload.sel, f), ke.get(msg, 16, s, 'sel.' + f))
+        expect(d, 'policy.index', payload.policy.index, ke.get(msg, 16, s, 'policy.index'))
+    elif header.type == 0x18:
+        s = 'xfrm_user_expire'
+        expect(d, 'state.id.spi', int.from_bytes(bytes(payload.state.id.spi), 'big'), ke.get(msg, 16, s, 'state.id.spi'))
+        expect(d, 'hard', payload.hard, ke.get(msg, 16, s, 'hard'))
+    return d
+
+
 def oracle(ctx, deep):
-    return []
+    import logging
+    fails = []
+    rng = ctx.rng
+    ke = KEnc(ctx)
+    n = 4000 if deep else 600
+    for i in range(n):
+        seq, pid = rng.getrandbits(31), rng.randrange(1, 1 << 22)
+        kind = rng.choice(['create_sa'] * 5 + ['create_policy'] * 3 + ['delete_sa', 'flush_policies', 'flush_sas'])
+        a = {}
+        if kind in ('create_sa', 'create_policy'):
+            a = well_formed_sa_args(rng)
+            if kind == 'create_policy':
+                a = {k: a[k] for k in POL_ORDER if k in a}
+                a['direction'] = rng.choice([0, 1, 2])
+                a['index'] = rng.choice([0, 1, 9, (rng.getrandbits(29) << 3) | 1, rng.getrandbits(32)])
+        elif kind == 'delete_sa':
+            a = dict(daddr=gen_ip(rng, rng.choice((4, 6))), proto=rng.choice((50, 51)),
+                     spi=bytes(rng.getrandbits(8) for _ in range(4)))
+        rk = rng.choice(['ack', 'ack', 'error', 'multi'])
+        diffs = oracle_request(ctx, ke, kind, a, seq, pid, rk)
+        ctx.case(['oracle', kind, args_json(a), seq, pid, rk], nontrivial=True, sample=(i < 1))
+        ctx.count('oracle:' + kind)
+        if diffs:
+            fails.append(Failure('property', f'{kind}:kernel-view-differs', '; '.join(diffs[:6]),
+                                 {'kind': 'oracle-request', 'call': kind, 'args': args_json(a), 'seq': seq,
+                                  'pid': pid, 'reply': rk}))
+            if len(fails) > 5:
+                return fails
+    logging.disable(logging.CRITICAL)
+    try:
+        for i in range(n // 3):
+            kind, msg = gen_event(rng, ke)
+            if 'truncated' in kind or 'badlen' in kind or 'unaligned-first' in kind or not kind.startswith(('acquire', 'expire')):
+                continue
+            diffs = oracle_event(ke, msg)
+            ctx.case(['oracle-event', msg.hex()], nontrivial=True)
+            ctx.count('oracle:event')
+            if diffs:
+                fails.append(Failure('property', 'event:parsed-fields-differ', '; '.join(diffs[:6]),
+                                     {'kind': 'oracle-event', 'data': msg.hex()}))
+                if len(fails) > 5:
+                    break
+    finally:
+        logging.disable(logging.NOTSET)
+    return fails
 
 
 def replay(ctx, obj):
+    if not hasattr(ctx, 'uapi'):
+        ctx.uapi = translate_uapi(ctx)
+    ke = KEnc(ctx)
+    if obj.get('kind') == 'oracle-request':
+        diffs = oracle_request(ctx, ke, obj['call'], args_unjson(obj['args']), obj['seq'], obj['pid'], obj['reply'])
+        if diffs:
+            return [Failure('property', f"{obj['call']}:kernel-view-differs", '; '.join(diffs[:6]), obj)]
+    if obj.get('kind') == 'oracle-event':
+        diffs = oracle_event(ke, bytes.fromhex(obj['data']))
+        if diffs:
+            return [Failure('property', 'event:parsed-fields-differ', '; '.join(diffs[:6]), obj)]
     return []
 
 
